@@ -133,11 +133,13 @@ pub struct ExprGen<'a> {
     pub ops: BTreeMap<&'static str, u64>,
     /// prefix for symbol names
     pub prefix: String,
+    /// when set, only these symbols are used as leaves (systems: declared inputs and states)
+    pub pool: Option<Vec<ExprRef>>,
 }
 
 impl<'a> ExprGen<'a> {
     pub fn new(ctx: &'a mut Context, rng: &'a mut Rng, cfg: GenCfg) -> Self {
-        ExprGen { ctx, rng, cfg, ops: BTreeMap::new(), prefix: String::new() }
+        ExprGen { ctx, rng, cfg, ops: BTreeMap::new(), prefix: String::new(), pool: None }
     }
 
     fn count(&mut self, op: &'static str) {
@@ -145,17 +147,41 @@ impl<'a> ExprGen<'a> {
     }
 
     pub fn pick_width(&mut self) -> WidthInt {
+        if let Some(pool) = &self.pool {
+            let ws: Vec<WidthInt> = pool.iter().filter_map(|s| s.get_bv_type(self.ctx)).collect();
+            if !ws.is_empty() && self.rng.chance(3, 4) {
+                return *self.rng.pick(&ws);
+            }
+        }
         let ws = self.cfg.widths.clone();
         *self.rng.pick(&ws)
     }
 
     pub fn bv_sym(&mut self, w: WidthInt) -> ExprRef {
+        if let Some(pool) = &self.pool {
+            let cands: Vec<ExprRef> = pool.iter().copied().filter(|s| s.get_type(self.ctx) == Type::BV(w)).collect();
+            if cands.is_empty() {
+                let v = lit_value(self.rng, w);
+                return self.ctx.bv_lit(&v);
+            }
+            return *self.rng.pick(&cands);
+        }
         let k = self.rng.below(self.cfg.syms_per_type);
         let name = format!("{}x{}_{}", self.prefix, w, k);
         self.ctx.bv_symbol(&name, w)
     }
 
     pub fn arr_sym(&mut self, iw: WidthInt, dw: WidthInt) -> ExprRef {
+        if let Some(pool) = &self.pool {
+            let t = Type::Array(ArrayType { index_width: iw, data_width: dw });
+            let cands: Vec<ExprRef> = pool.iter().copied().filter(|s| s.get_type(self.ctx) == t).collect();
+            if cands.is_empty() {
+                let v = lit_value(self.rng, dw);
+                let e = self.ctx.bv_lit(&v);
+                return self.ctx.array_const(e, iw);
+            }
+            return *self.rng.pick(&cands);
+        }
         let k = self.rng.below(self.cfg.syms_per_type);
         let name = format!("{}m{}_{}_{}", self.prefix, iw, dw, k);
         self.ctx.array_symbol(&name, iw, dw)
